@@ -519,10 +519,17 @@ def gen_g_case(rng):
         S = [[rng.gauss(0, 1) for _ in range(D)] for _ in range(D)]
         return [[S[i][j] + S[j][i] for j in range(D)] for i in range(D)]
     AL, AU, BL, BU = sym(), sym(), spd(), spd()
+    # the contract is scale free: pencils of very small / very large absolute magnitude as well
+    sa = rng.choice([1.0, 1.0, 2.0 ** -20, 2.0 ** 10])
+    sb = rng.choice([1.0, 1.0, 2.0 ** -30, 2.0 ** -20, 2.0 ** 20])
+    AL = [[sa * x for x in r] for r in AL]
+    AU = [[sa * x for x in r] for r in AU]
+    BL = [[sb * x for x in r] for r in BL]
+    BU = [[sb * x for x in r] for r in BU]
     a = [[AL[i][j] if j <= i else AU[i][j] for j in range(D)] for i in range(D)]
     b = [[BL[i][j] if j <= i else BU[i][j] for j in range(D)] for i in range(D)]
     # the two readings share the diagonal: keep BU positive definite by construction anyway
-    return {"kind": "G", "D": D, "d": d, "a": [[hexf(x) for x in r] for r in a],
+    return {"kind": "G", "D": D, "d": d, "scale_a": sa, "scale_b": sb, "a": [[hexf(x) for x in r] for r in a],
             "b": [[hexf(x) for x in r] for r in b]}
 
 
@@ -600,9 +607,10 @@ def eval_g(ctx, exe1, cases, stats):
                 ref = [V[i][j] for i in range(D)]
                 e1 = max(abs(x - y) for x, y in zip(col, ref))
                 e2 = max(abs(x + y) for x, y in zip(col, ref))
-                if min(e1, e2) > 1e-9 * max(1.0, max(abs(y) for y in ref)):
+                if min(e1, e2) > 1e-9 * max(abs(y) for y in ref):
                     good = False
-            if len(sel_ev) < d or any(abs(sel_ev[j] - ev[j]) > 1e-9 * (1 + abs(ev[j])) for j in range(d)):
+            evs = max(abs(x) for x in ev)
+            if len(sel_ev) < d or any(abs(sel_ev[j] - ev[j]) > 1e-9 * evs for j in range(d)):
                 good = False
         if not good:
             stats["select_bad"] += 1
@@ -651,10 +659,14 @@ def gen_e_case(rng, method, big):
             row.append(v)
         X.append(row)
     width = rng.choice([0.5, 2.0, 10.0, 100.0])
+    # the property is about ALL feature data: the same data in other units (powers of two: exact rescaling)
+    scale = rng.choice([1.0, 1.0, 1.0, 2.0 ** -17, 2.0 ** -10, 2.0 ** 10])
+    X = [[v * scale for v in row] for row in X]
+    width = width * scale * scale
     nshift = rng.choice([1e-9, 1e-6, 1e-3])
     kshift = rng.choice([1e-3, 1e-2])
     return {"kind": "E", "method": method, "N": N, "D": D, "d": d, "k": k, "width": hexf(width),
-            "nshift": hexf(nshift), "kshift": hexf(kshift), "offset": offk,
+            "nshift": hexf(nshift), "kshift": hexf(kshift), "offset": offk, "scale": scale,
             "X": [[hexf(v) for v in row] for row in X]}      # sample major
 
 
